@@ -157,6 +157,31 @@ def main() -> int:
     bad2 = dict(good, table=[-76100000, 0, -76300000])
     expect("Orca_Trace: failed frame dropped / first instead of last energy", _run(ctx, "Orca_Trace", "Orca_Trace.cfg", [good, bad, bad2], "st_orca"), [1, 2])
 
+    # G14: a hand-written history of size views vs one answer off by a factor / a view answering differently the second time
+    new = lambda t: dict(tid=t, op="new", b=3, o=4, t=2, v="", val=0, err="")
+    ask = lambda t, v, val: dict(tid=t, op="ask", b=0, o=0, t=0, v=v, val=val, err="")
+    recs = [new(0), ask(0, "rows", 24), ask(0, "len", 24), ask(0, "posLen", 8), ask(0, "rows", 24),
+            new(1), ask(1, "rows", 24), ask(1, "len", 8), ask(1, "posLen", 8),
+            new(2), ask(2, "posRows", 8), ask(2, "bN", 3), ask(2, "posRows", 24)]
+    expect("FullViews_Trace: len without the rotation factor / a view answering differently when asked again",
+           ctx.validate("FullViews_Trace", "FullViews_Trace.cfg", recs, name="st_views"), [1, 2])
+
+    # G15: a hand-written set_up_io history vs Setup that empties a folder / an example sorted into the wrong folder
+    folders = ["output/data/energies", "output/data/pt_files", "input", "output/figures", "output/animations", "output/data/logging",
+               "output/data/autosave", "input/logbook", "output/data/traj_files", "experiments", "molgri/examples"]
+    ex = [dict(id=0, ext="gro", ico=True), dict(id=1, ext="gro", ico=False), dict(id=2, ext="txt", ico=True)]
+    rec = lambda t, op, dirs, files, paths, **kw: dict(dict(tid=t, op=op, f="", id=-1, r="", examples=ex, err="", dirs=dirs, files=files, paths=paths), **kw)
+    fl = lambda *x: [dict(f=a, id=b, cls=c) for a, b, c in x]
+    good = [rec(0, "init", [], [], "defaults"), rec(0, "Setup", folders, [], "defaults"), rec(0, "Add", folders, fl(("input", 1, "user")), "defaults", f="input", id=1),
+            rec(0, "Setup", folders, fl(("input", 1, "user")), "defaults"),
+            rec(0, "Copy", folders, fl(("input", 1, "example"), ("output/data/pt_files", 0, "example")), "defaults")]
+    bad1 = [dict(r, tid=1) for r in good]
+    bad1[3] = dict(bad1[3], files=[])                                     # the second Setup emptied the input folder
+    bad2 = [dict(r, tid=2) for r in good]
+    bad2[4] = dict(bad2[4], files=fl(("input", 1, "example"), ("input", 0, "example")))     # the ico .gro file sorted into input
+    expect("IOSetup_Trace: Setup empties a folder / an example sorted into the wrong folder",
+           ctx.validate("IOSetup_Trace", "IOSetup_Trace.cfg", good + bad1 + bad2, name="st_io"), [1, 2])
+
     # negative model configurations (each must be found by TLC)
     try:
         ctx.mutant("Fold", ctx.cfg("st_fold.cfg", "SPECIFICATION Spec\nCONSTANTS\n  N = 3\n  Weights = {1, 2}\n  Bug = \"zeroIndexFalsy\"\n  AllowSelfTouch = FALSE\nINVARIANT Symmetric\n"), "Symmetric")
